@@ -1,15 +1,13 @@
 #!/usr/bin/env python3
 """Writes MANIFEST.json from tools/props.py + the per-property texts below."""
 import json, sys
-sys.path.insert(0, "/verif/tools")
+import os
+ROOT = os.path.dirname(os.path.dirname(os.path.abspath(__file__)))
+sys.path.insert(0, os.path.join(ROOT, "tools"))
 import props
 
 ALL = [f"C{i:02d}" for i in range(1, 21)]
-TEXT = {
- "C14": ("Rocq proof: slice/index model = Python slice.indices+range for all lengths and all i128/u128 operands; correspondence run ties model to code",
-         "Theorems (Props/C14.v, closed under the global context) prove that the Gallina port of resolve_index/slice_items/the VM operand validation returns exactly Python's selection, never indexes out of bounds and terminates within len steps, for every length and every 128-bit start/stop/step; the port is tied to the Rust code by running both on the same generated cases (exhaustive small space + boundary pools) inside coqc. A universal theorem is the right level because the property quantifies over all integers; tests can only sample them.",
-         "§6 C14"),
-}
+TEXT = props.MANIFEST_TEXT
 NA = {}
 
 def main():
@@ -48,7 +46,7 @@ def main():
         "not_applicable": na,
         "notes": "Exit codes: 0 held, 1 VIOLATION line printed, 2 CHECK-ERROR (machinery defect). KNOWN_FINDINGS.txt lists fixed defects and recorded findings.",
     }
-    json.dump(m, open("/verif/MANIFEST.json", "w"), indent=1)
+    json.dump(m, open(os.path.join(ROOT, "MANIFEST.json"), "w"), indent=1)
     print("checks:", [c["property_id"] for c in checks], "n/a:", len(na))
 
 main()
